@@ -63,6 +63,52 @@ theorem gaps_no_panic (k : Nat) : gaps k ≠ .panic ∧ gaps k ≠ .err := by
   rw [gaps_spec]
   simp
 
+/-- seconds between the first query of a search and its query number `n` (sum of the first `n`
+    delays) -/
+def offset : Nat → Nat
+  | 0 => 0
+  | n + 1 => offset n + delay n
+
+/-- **The instants themselves**: query number `n` of a search leaves `2^n - 1` seconds after the
+    first one (0, 1, 3, 7, ... 4095 s) for `n ≤ 12`, and one hour after its predecessor from then
+    on: `4095 + 3600 (n - 12)` seconds. -/
+theorem offset_closed_form (n : Nat) :
+    (n ≤ 12 → offset n + 1 = 2 ^ n) ∧ (12 ≤ n → offset n = 4095 + 3600 * (n - 12)) := by
+  induction n with
+  | zero => simp [offset]
+  | succ n ih =>
+    have hc := delay_cap n
+    constructor
+    · intro h
+      have h1 := ih.1 (by omega)
+      have h2 := hc.1 (by omega)
+      simp only [offset, Nat.pow_succ]
+      omega
+    · intro h
+      simp only [offset]
+      by_cases h12 : n = 11
+      · subst h12
+        have h1 := ih.1 (by omega)
+        have h2 := hc.1 (by omega)
+        omega
+      · have h1 := ih.2 (by omega)
+        have h2 := hc.2 (by omega)
+        omega
+
+/-- **The rate is bounded for ever**: within any `T` seconds from its first query a search has
+    sent at most `13 + T / 3600` queries - twelve doublings, then one per hour. -/
+theorem queries_within (n T : Nat) (h : offset n ≤ T) : n + 1 ≤ 13 + T / 3600 := by
+  by_cases h12 : n ≤ 12
+  · omega
+  · have := (offset_closed_form n).2 (by omega)
+    have : 3600 * (n - 12) ≤ T := by omega
+    have : n - 12 ≤ T / 3600 := by
+      rw [Nat.le_div_iff_mul_le (by omega)]; omega
+    omega
+
+example : (List.range 15).map offset = [0, 1, 3, 7, 15, 31, 63, 127, 255, 511, 1023, 2047, 4095, 7695, 11295] := by
+  decide
+
 /-! ## Non-vacuity -/
 
 example : (List.range 15).map delay = [1, 2, 4, 8, 16, 32, 64, 128, 256, 512, 1024, 2048, 3600, 3600, 3600] := by
